@@ -145,6 +145,7 @@ func c10CommonCase(o *hx.Out, vals []float64, cls int, note string, tags ...stri
 	var vs, strs []hx.Sx
 	in := c10Input{Kind: "common", Class: cls, Note: note}
 	hasNaN := false
+	overflow := false
 	min := 0.0
 	for _, v := range vals {
 		vs = append(vs, hx.F64(v))
@@ -159,7 +160,14 @@ func c10CommonCase(o *hx.Out, vals []float64, cls int, note string, tags ...stri
 		}
 		if s.ok {
 			strs = append(strs, hx.S(sc.Format(v)))
+			if q := v / sc.Factor; math.IsInf(q, 0) && !math.IsInf(v, 0) {
+				overflow = true
+			}
 		}
+	}
+	if overflow {
+		// known finding: a finite value whose quotient by the shared sub-unit factor overflows prints as +Inf
+		tags = append(tags, "C10_shared_scale_quotient_overflow")
 	}
 	scaleStr := hx.L()
 	if len(vals) == 1 {
@@ -388,6 +396,15 @@ func genC10(o *hx.Out, r *hx.Rng, tier string, replay string) error {
 		}
 		c10CommonCase(o, vals, cls, "multiset")
 	}
+	// a huge finite value sharing a sub-unit scale with a tiny one (known finding
+	// C10_shared_scale_quotient_overflow: the quotient v/Factor overflows, "+Infn")
+	for _, big := range []float64{1e305, -1e305, math.MaxFloat64, 2e299} {
+		c10CommonCase(o, []float64{1e-9, big}, 0, "overflow")
+		c10CommonCase(o, []float64{big, 3e-7, 1}, 0, "overflow")
+	}
+	// just below the overflow: still exact to half a unit
+	c10CommonCase(o, []float64{1e-9, 1e299}, 0, "near-overflow")
+	c10CommonCase(o, []float64{1e-9, -1.7e299}, 0, "near-overflow")
 
 	// (2) arbitrary scalers
 	nf := 900
